@@ -741,3 +741,326 @@ Proof.
       rewrite E in Elt. lia.
     + unfold dead. psimpl. split; [reflexivity|]. cbn. apply close_self.
 Qed.
+
+(* ------------------------------------------------------------ ProcessWhen: inner loop *)
+
+Lemma live_cl : forall cl cl' f b, live cl f b -> mem (wb_id b) cl' = false -> live cl' f b.
+Proof. intros cl cl' f b [A [B [C [D E]]]] H. repeat split; auto; apply E. Qed.
+
+Lemma dead_cl : forall cl cl' b, dead cl b -> (forall i, mem i cl = true -> mem i cl' = true) -> dead cl' b.
+Proof. intros cl cl' b [A B] H. split; auto. Qed.
+
+Lemma wb_ok_cl : forall cl cl' f b, wb_ok cl f b ->
+  (forall i, mem i cl = true -> mem i cl' = true) ->
+  (mem (wb_id b) cl' = true -> mem (wb_id b) cl = true) -> wb_ok cl' f b.
+Proof.
+  intros cl cl' f b [H|H] Hm Hb.
+  - left. eapply dead_cl; eassumption.
+  - right. eapply live_cl; [exact H|]. destruct (mem (wb_id b) cl') eqn:E; [|reflexivity].
+    destruct H as [_ [_ [_ [D _]]]]. rewrite Hb in D by reflexivity. discriminate.
+Qed.
+
+Lemma find_wb_None : forall h id, find_wb h id = None -> forall b, In b h -> wb_id b <> id.
+Proof.
+  induction h as [|y r IH]; intros id H b Hb; simpl in *; [contradiction|].
+  destruct (Nat.eqb (wb_id y) id) eqn:E; [discriminate|].
+  destruct Hb as [Hb|Hb]; [subst; apply Nat.eqb_neq; exact E | apply IH; assumption].
+Qed.
+
+Lemma mem_cons_ne : forall i id l, i <> id -> mem i (id :: l) = mem i l.
+Proof. intros i id l H. cbn [mem existsb]. apply Nat.eqb_neq in H. rewrite H. reflexivity. Qed.
+
+Section Inner.
+  Variables (y : nat) (v : bool) (fp : nat -> bool).
+  Let fq := upd fp y v.
+
+  Definition status (cl : list nat) (b b' : wbind) (visited : bool) : Prop :=
+    wb_id b' = wb_id b /\ wb_neg b' = wb_neg b /\ wb_states b' = wb_states b /\
+    (if visited
+     then (live cl fq b' /\ full (wb_neg b) fq (wb_states b) = false)
+          \/ (dead cl b' /\ full (wb_neg b) fq (wb_states b) = true)
+     else b' = b).
+
+  Lemma inner_loop : forall ids s,
+    ss_done s = [] -> NoDup ids -> NoDup (map wb_id (ss_wb s)) ->
+    (forall b, In b (ss_wb s) ->
+       if mem (wb_id b) ids then live (ss_closed s) fp b /\ In y (wb_states b)
+       else wb_ok (ss_closed s) fq b) ->
+    let s' := fold_left (fun st id => visit_wb st id y v) ids s in
+    wsame s s' /\ map wb_id (ss_wb s') = map wb_id (ss_wb s) /\
+    (forall b', In b' (ss_wb s') -> wb_ok (ss_closed s') fq b') /\
+    (forall i, mem i (ss_closed s) = true -> mem i (ss_closed s') = true) /\
+    (forall i, mem i (ss_closed s') = true -> mem i (ss_closed s) = true \/ In i ids) /\
+    (forall b, In b (ss_wb s) -> exists b', In b' (ss_wb s') /\
+       status (ss_closed s') b b' (mem (wb_id b) ids)).
+  Proof.
+    induction ids as [|id rest IH]; intros s Hdone Hnd Hids Hall; cbn zeta; simpl fold_left.
+    - split; [apply wsame_refl|]. split; [reflexivity|]. split.
+      { intros b' Hb'. exact (Hall b' Hb'). }
+      split; [tauto|]. split; [tauto|].
+      intros b Hb. exists b. split; [exact Hb|]. unfold status. cbn. tauto.
+    - inversion Hnd as [|? ? Hid Hrest]. subst.
+      destruct (find_wb (ss_wb s) id) as [b0|] eqn:Ef.
+      + (* the binding is visited *)
+        destruct (find_wb_split _ _ _ Hids Ef) as [h1 [h2 [Hh [Hb0 [H1 H2]]]]].
+        subst id.
+        assert (Hin0 : In b0 (ss_wb s)) by (rewrite Hh; apply in_or_app; right; left; reflexivity).
+        pose proof (Hall b0 Hin0) as Hl. cbn [mem existsb] in Hl. rewrite Nat.eqb_refl in Hl.
+        cbn [orb] in Hl. destruct Hl as [Hlive Hy].
+        destruct (visit_wb_live s h1 h2 b0 y v fp Hdone Hh H1 H2 Hlive Hy)
+          as [b1 [Hb1 [Hn1 [Hs1 [Hwb1 [Hsame1 Hres]]]]]].
+        set (s1 := visit_wb s (wb_id b0) y v) in *.
+        assert (Hcl1 : forall i, mem i (ss_closed s1) = true ->
+                                 mem i (ss_closed s) = true \/ i = wb_id b0).
+        { intros i Hi. destruct Hres as [[_ [Hc _]]|[_ [Hc _]]]; rewrite Hc in Hi; [tauto|].
+          apply close_mem in Hi. tauto. }
+        assert (Hmono1 : forall i, mem i (ss_closed s) = true -> mem i (ss_closed s1) = true).
+        { intros i Hi. destruct Hres as [[_ [Hc _]]|[_ [Hc _]]]; rewrite Hc; [exact Hi|].
+          apply close_mono. exact Hi. }
+        assert (Hids1 : map wb_id (ss_wb s1) = map wb_id (ss_wb s)).
+        { rewrite Hwb1, Hh. repeat rewrite map_app. simpl. rewrite Hb1. reflexivity. }
+        assert (Hok1 : wb_ok (ss_closed s1) fq b1).
+        { destruct Hres as [[_ [Hc Hl1]]|[_ [_ Hd1]]]; [right; rewrite Hc; exact Hl1 | left; exact Hd1]. }
+        destruct (IH s1) as [Hsame [Hids' [Hok' [Hmono' [Hcl' Htr']]]]].
+        * destruct Hsame1 as [_ [_ [_ [_ [_ [_ [_ [_ [_ [Hd _]]]]]]]]]]. congruence.
+        * exact Hrest.
+        * rewrite Hids1. exact Hids.
+        * intros b Hb. rewrite Hwb1 in Hb. apply in_app_or in Hb.
+          assert (Hother : forall b2, In b2 (ss_wb s) -> wb_id b2 <> wb_id b0 ->
+                    if mem (wb_id b2) rest then live (ss_closed s1) fp b2 /\ In y (wb_states b2)
+                    else wb_ok (ss_closed s1) fq b2).
+          { intros b2 Hb2 Hne. pose proof (Hall b2 Hb2) as Hx. rewrite (mem_cons_ne _ _ _ Hne) in Hx.
+            destruct (mem (wb_id b2) rest).
+            - destruct Hx as [Hx1 Hx2]. split; [|exact Hx2]. eapply live_cl; [exact Hx1|].
+              destruct (mem (wb_id b2) (ss_closed s1)) eqn:Em; [|reflexivity].
+              destruct (Hcl1 _ Em) as [Hc|Hc]; [|contradiction].
+              destruct Hx1 as [_ [_ [_ [D _]]]]. congruence.
+            - eapply wb_ok_cl; [exact Hx | exact Hmono1 |].
+              intros Hm. destruct (Hcl1 _ Hm) as [Hc|Hc]; [exact Hc | contradiction]. }
+          destruct Hb as [Hb|[Hb|Hb]].
+          -- apply Hother; [rewrite Hh; apply in_or_app; left; exact Hb | apply H1; exact Hb].
+          -- subst b. rewrite Hb1. apply mem_false in Hid. rewrite Hid. exact Hok1.
+          -- apply Hother; [rewrite Hh; apply in_or_app; right; right; exact Hb | apply H2; exact Hb].
+        * split; [eapply wsame_trans; eassumption|].
+          split; [congruence|]. split; [exact Hok'|].
+          split; [intros i Hi; apply Hmono'; apply Hmono1; exact Hi|].
+          split.
+          { intros i Hi. destruct (Hcl' i Hi) as [Hc|Hc]; [|right; right; exact Hc].
+            destruct (Hcl1 i Hc) as [Hc1|Hc1]; [tauto | right; left; congruence]. }
+          intros b Hb.
+          destruct (Nat.eq_dec (wb_id b) (wb_id b0)) as [Heq|Hne].
+          -- (* the visited binding itself *)
+             assert (b = b0).
+             { rewrite Hh in Hb. apply in_app_or in Hb. destruct Hb as [Hb|[Hb|Hb]];
+                 [exfalso; apply (H1 b Hb Heq) | congruence | exfalso; apply (H2 b Hb Heq)]. }
+             subst b.
+             assert (Hin1 : In b1 (ss_wb s1)) by (rewrite Hwb1; apply in_or_app; right; left; reflexivity).
+             destruct (Htr' b1 Hin1) as [b' [Hb' [Hi' [Hn' [Hs' Hst']]]]].
+             rewrite Hb1 in Hst'. apply mem_false in Hid. rewrite Hid in Hst'. subst b'.
+             exists b1. split; [exact Hb'|]. unfold status. cbn [mem existsb]. rewrite Nat.eqb_refl.
+             cbn [orb]. repeat split; auto.
+             destruct Hres as [[Hf [Hc Hl1]]|[Hf [Hc Hd1]]].
+             ++ left. split; [|exact Hf]. eapply live_cl; [exact Hl1|].
+                destruct (mem (wb_id b1) (ss_closed _)) eqn:Em; [|reflexivity].
+                destruct (Hcl' _ Em) as [Hx|Hx].
+                ** rewrite Hc in Hx. destruct Hl1 as [_ [_ [_ [D _]]]]. congruence.
+                ** exfalso. rewrite Hb1 in Hx. apply mem_In in Hx. congruence.
+             ++ right. split; [|exact Hf]. eapply dead_cl; [exact Hd1 | exact Hmono'].
+          -- (* another binding *)
+             assert (Hin1 : In b (ss_wb s1)).
+             { rewrite Hwb1. rewrite Hh in Hb. apply in_app_or in Hb. apply in_or_app.
+               destruct Hb as [Hb|[Hb|Hb]]; [tauto | congruence | right; right; exact Hb]. }
+             destruct (Htr' b Hin1) as [b' [Hb' Hst']].
+             exists b'. split; [exact Hb'|]. rewrite (mem_cons_ne _ _ _ Hne). exact Hst'.
+      + (* no binding with this id: nothing happens *)
+        assert (Hv : visit_wb s id y v = s) by (unfold visit_wb; rewrite Ef; reflexivity).
+        rewrite Hv.
+        destruct (IH s Hdone Hrest Hids) as [Hsame [Hids' [Hok' [Hmono' [Hcl' Htr']]]]].
+        * intros b Hb. pose proof (Hall b Hb) as Hx.
+          rewrite (mem_cons_ne _ _ _ (find_wb_None _ _ Ef b Hb)) in Hx. exact Hx.
+        * split; [exact Hsame|]. split; [exact Hids'|]. split; [exact Hok'|]. split; [exact Hmono'|].
+          split; [intros i Hi; destruct (Hcl' i Hi); [tauto | right; right; assumption]|].
+          intros b Hb. destruct (Htr' b Hb) as [b' [Hb' Hst']]. exists b'. split; [exact Hb'|].
+          rewrite (mem_cons_ne _ _ _ (find_wb_None _ _ Ef b Hb)). exact Hst'.
+  Qed.
+End Inner.
+
+(* ------------------------------------------------------------ ProcessWhen: the walk *)
+
+Lemma mem_app : forall x l1 l2, mem x (l1 ++ l2) = mem x l1 || mem x l2.
+Proof. intros. unfold mem. apply existsb_app. Qed.
+
+Lemma hybrid_snoc : forall a act p y z,
+  hybrid a act (p ++ [y]) z = upd (hybrid a act p) y (mem y act) z.
+Proof.
+  intros a act p y z. unfold hybrid, upd. rewrite mem_app. cbn [mem existsb].
+  destruct (Nat.eqb z y) eqn:E.
+  - apply Nat.eqb_eq in E. subst z. rewrite orb_true_r. reflexivity.
+  - rewrite orb_false_r. reflexivity.
+Qed.
+
+Lemma wb_ok_ext : forall cl f g b, (forall x, In x (wb_states b) -> f x = g x) ->
+  wb_ok cl f b -> wb_ok cl g b.
+Proof. intros cl f g b H [Hd|Hl]; [left; exact Hd | right; eapply live_ext; eassumption]. Qed.
+
+Lemma snapshot_eq : forall y h, (forall b, In b h -> NoDup (wb_idx b)) ->
+  flat_map (fun b => repeat (wb_id b) (count_in y (wb_idx b))) h
+  = map wb_id (filter (fun b => mem y (wb_idx b)) h).
+Proof.
+  intros y. induction h as [|b r IH]; intros H; simpl; [reflexivity|].
+  rewrite IH by (intros b' Hb'; apply H; right; exact Hb').
+  destruct (mem y (wb_idx b)) eqn:E.
+  - apply mem_In in E. rewrite (count_in_NoDup y _ (H b (or_introl eq_refl)) E). reflexivity.
+  - apply mem_false in E. apply count_in_0 in E. rewrite E. reflexivity.
+Qed.
+
+Lemma NoDup_map_filter : forall (g : wbind -> bool) h,
+  NoDup (map wb_id h) -> NoDup (map wb_id (filter g h)).
+Proof.
+  intros g. induction h as [|b r IH]; intros H; simpl; [constructor|].
+  inversion H as [|? ? Hb Hr]. subst. destruct (g b); simpl; [|apply IH; exact Hr].
+  constructor; [|apply IH; exact Hr]. intros Hin. apply Hb.
+  apply in_map_iff in Hin. destruct Hin as [x [Hx Hi]]. apply filter_In in Hi.
+  apply in_map_iff. exists x. tauto.
+Qed.
+
+Lemma mem_map_filter : forall (g : wbind -> bool) h b,
+  NoDup (map wb_id h) -> In b h -> mem (wb_id b) (map wb_id (filter g h)) = g b.
+Proof.
+  intros g h b Hnd Hb. destruct (g b) eqn:E.
+  - apply mem_In. apply in_map. apply filter_In. tauto.
+  - apply mem_false. intros Hin. apply in_map_iff in Hin. destruct Hin as [x [Hx Hi]].
+    apply filter_In in Hi. destruct Hi as [Hi Hg].
+    assert (x = b); [|congruence].
+    clear E Hg. induction h as [|z r IH]; [contradiction|].
+    inversion Hnd as [|? ? Hz Hr]. subst.
+    destruct Hi as [Hi|Hi], Hb as [Hb|Hb]; try congruence.
+    + subst. exfalso. apply Hz. rewrite Hx. apply in_map. exact Hb.
+    + subst. exfalso. apply Hz. rewrite <- Hx. apply in_map. exact Hi.
+    + apply IH; assumption.
+Qed.
+
+Lemma wb_ok_NoDup_idx : forall cl f b, wb_ok cl f b -> NoDup (wb_idx b).
+Proof.
+  intros cl f b [[A _]|[A [B _]]]; [rewrite A; constructor | rewrite A; exact B].
+Qed.
+
+Section Outer.
+  Variables (a : nat -> bool) (act deact : list nat).
+  Let all := act ++ deact.
+  Let fh (p : list nat) := hybrid a act p.
+
+  (* position n of the walk completes binding b *)
+  Definition hit (b : wbind) (n : nat) : bool :=
+    mem (nth (n - 1) all 0) (wb_states b) && full (wb_neg b) (fh (firstn n all)) (wb_states b).
+
+  Lemma existsb_hit_same : forall b b1 l, wb_neg b1 = wb_neg b -> wb_states b1 = wb_states b ->
+    existsb (hit b1) l = existsb (hit b) l.
+  Proof.
+    intros b b1 l Hn Hs. induction l as [|n r IH]; simpl; [reflexivity|].
+    rewrite IH. unfold hit. rewrite Hn, Hs. reflexivity.
+  Qed.
+
+  Definition walk_step (st : sst) (x : nat) : sst :=
+    let ids := flat_map (fun b => repeat (wb_id b) (count_in x (wb_idx b))) (ss_wb st) in
+    fold_left (fun st id => visit_wb st id x (mem x act)) ids st.
+
+  Lemma outer_loop : forall rest p s,
+    all = p ++ rest -> ss_done s = [] -> NoDup (map wb_id (ss_wb s)) ->
+    (forall b, In b (ss_wb s) -> wb_ok (ss_closed s) (fh p) b) ->
+    let s' := fold_left walk_step rest s in
+    wsame s s' /\ map wb_id (ss_wb s') = map wb_id (ss_wb s) /\
+    (forall b', In b' (ss_wb s') -> wb_ok (ss_closed s') (fh all) b') /\
+    (forall i, mem i (ss_closed s) = true -> mem i (ss_closed s') = true) /\
+    (forall i, mem i (ss_closed s') = true ->
+               mem i (ss_closed s) = true \/ In i (map wb_id (ss_wb s))) /\
+    (forall b, In b (ss_wb s) -> exists b', In b' (ss_wb s') /\
+       wb_id b' = wb_id b /\ wb_neg b' = wb_neg b /\ wb_states b' = wb_states b /\
+       (dead (ss_closed s) b -> dead (ss_closed s') b') /\
+       (live (ss_closed s) (fh p) b ->
+          (live (ss_closed s') (fh all) b' /\ existsb (hit b) (seq (S (length p)) (length rest)) = false)
+          \/ (dead (ss_closed s') b' /\ existsb (hit b) (seq (S (length p)) (length rest)) = true))).
+  Proof.
+    induction rest as [|y rest IH]; intros p s Hall Hdone Hnd Hok; cbn zeta; simpl fold_left.
+    - rewrite app_nil_r in Hall. split; [apply wsame_refl|]. split; [reflexivity|]. split.
+      { intros b' Hb'. rewrite Hall. apply Hok. exact Hb'. }
+      split; [tauto|]. split; [tauto|].
+      intros b Hb. exists b. split; [exact Hb|]. do 3 (split; [reflexivity|]).
+      split; [tauto|]. intros Hl. left. split; [rewrite Hall; exact Hl | reflexivity].
+    - set (v := mem y act). set (fp := fh p).
+      set (ids := map wb_id (filter (fun b => mem y (wb_idx b)) (ss_wb s))).
+      assert (Hsnap : walk_step s y = fold_left (fun st id => visit_wb st id y v) ids s).
+      { unfold walk_step. rewrite snapshot_eq; [reflexivity|].
+        intros b Hb. eapply wb_ok_NoDup_idx. apply Hok. exact Hb. }
+      rewrite Hsnap.
+      assert (Hfq : forall z, upd fp y v z = fh (p ++ [y]) z).
+      { intros z. symmetry. apply hybrid_snoc. }
+      destruct (inner_loop y v fp ids s Hdone (NoDup_map_filter _ _ Hnd) Hnd)
+        as [Hsame1 [Hids1 [Hok1 [Hmono1 [Hcl1 Htr1]]]]].
+      { intros b Hb. unfold ids. rewrite (mem_map_filter _ _ _ Hnd Hb).
+        destruct (Hok b Hb) as [Hd|Hl].
+        - destruct Hd as [Hd1 Hd2]. rewrite Hd1. cbn. left. split; assumption.
+        - pose proof Hl as [A _]. rewrite A. destruct (mem y (wb_states b)) eqn:E.
+          + apply mem_In in E. split; [exact Hl | exact E].
+          + right. eapply live_ext; [|exact Hl]. intros x Hx. unfold upd.
+            destruct (Nat.eqb x y) eqn:Exy; [|reflexivity].
+            apply Nat.eqb_eq in Exy. subst x. apply mem_false in E. contradiction. }
+      set (s1 := fold_left (fun st id => visit_wb st id y v) ids s) in *.
+      destruct (IH (p ++ [y]) s1) as [Hsame [Hids' [Hok' [Hmono' [Hcl' Htr']]]]].
+      + rewrite <- app_assoc. exact Hall.
+      + destruct Hsame1 as [_ [_ [_ [_ [_ [_ [_ [_ [_ [Hd _]]]]]]]]]]. congruence.
+      + rewrite Hids1. exact Hnd.
+      + intros b Hb. eapply wb_ok_ext; [|apply Hok1; exact Hb]. intros x _. apply Hfq.
+      + split; [eapply wsame_trans; eassumption|]. split; [congruence|]. split; [exact Hok'|].
+        split; [intros i Hi; apply Hmono'; apply Hmono1; exact Hi|].
+        split.
+        { intros i Hi. destruct (Hcl' i Hi) as [Hc|Hc]; [|right; congruence].
+          destruct (Hcl1 i Hc) as [Hc1|Hc1]; [tauto|]. right. unfold ids in Hc1.
+          apply in_map_iff in Hc1. destruct Hc1 as [x [Hx Hi1]]. apply filter_In in Hi1.
+          rewrite <- Hx. apply in_map. tauto. }
+        intros b Hb. destruct (Htr1 b Hb) as [b1 [Hb1 [Hi1 [Hn1 [Hs1 Hst1]]]]].
+        destruct (Htr' b1 Hb1) as [b' [Hb' [Hi' [Hn' [Hs' [Hdd' Hll']]]]]].
+        exists b'. split; [exact Hb'|]. split; [congruence|]. split; [congruence|].
+        split; [congruence|].
+        assert (Hlen : length (p ++ [y]) = S (length p)) by (rewrite app_length; simpl; lia).
+        assert (Hnth : nth (S (length p) - 1) all 0 = y).
+        { rewrite Hall. replace (S (length p) - 1) with (length p) by lia.
+          rewrite app_nth2 by lia. rewrite Nat.sub_diag. reflexivity. }
+        assert (Hfirst : firstn (S (length p)) all = p ++ [y]).
+        { rewrite Hall. replace (S (length p)) with (length p + 1) by lia.
+          rewrite firstn_app_2. reflexivity. }
+        assert (Hhit : hit b (S (length p)) =
+                       mem y (wb_states b) && full (wb_neg b) (upd fp y v) (wb_states b)).
+        { unfold hit. rewrite Hnth, Hfirst. f_equal. apply full_ext. intros x _. symmetry. apply Hfq. }
+        unfold ids in Hst1. rewrite (mem_map_filter _ _ _ Hnd Hb) in Hst1.
+        split.
+        * (* dead stays dead *)
+          intros Hd. pose proof Hd as [Hd1 _]. rewrite Hd1 in Hst1. cbn in Hst1. subst b1.
+          apply Hdd'. eapply dead_cl; [exact Hd | exact Hmono1].
+        * intros Hl. pose proof Hl as [A _]. rewrite A in Hst1.
+          simpl seq. simpl existsb. rewrite Hhit. rewrite Hlen in Hll'.
+          destruct (mem y (wb_states b)) eqn:E; cbn [andb orb].
+          -- (* visited at this position *)
+             destruct Hst1 as [[Hl1 Hf]|[Hd1 Hf]]; rewrite Hf; cbn [orb].
+             ++ assert (Hl1' : live (ss_closed s1) (fh (p ++ [y])) b1).
+                { eapply live_ext; [|exact Hl1]. intros x _. apply Hfq. }
+                destruct (Hll' Hl1') as [[Hl2 He]|[Hd2 He]].
+                ** left. split; [exact Hl2|]. rewrite <- He. symmetry. apply existsb_hit_same; assumption.
+                ** right. split; [exact Hd2|]. rewrite <- He. symmetry. apply existsb_hit_same; assumption.
+             ++ right. split; [apply Hdd'; exact Hd1 | reflexivity].
+          -- (* not one of its states *)
+             subst b1.
+             assert (Hl1' : live (ss_closed s1) (fh (p ++ [y])) b).
+             { eapply live_ext with (f := fp).
+               - intros x Hx. rewrite <- Hfq. unfold upd. destruct (Nat.eqb x y) eqn:Exy; [|reflexivity].
+                 apply Nat.eqb_eq in Exy. subst x. apply mem_false in E. contradiction.
+               - eapply live_cl; [exact Hl|]. destruct (mem (wb_id b) (ss_closed s1)) eqn:Em; [|reflexivity].
+                 destruct (Hcl1 _ Em) as [Hc|Hc].
+                 + destruct Hl as [_ [_ [_ [D _]]]]. congruence.
+                 + exfalso. apply mem_In in Hc. unfold ids in Hc.
+                   rewrite (mem_map_filter _ _ _ Hnd Hb), A, E in Hc. discriminate. }
+             destruct (Hll' Hl1') as [[Hl2 He]|[Hd2 He]].
+             ++ left. split; [exact Hl2|]. rewrite <- He. symmetry. apply existsb_hit_same; assumption.
+             ++ right. split; [exact Hd2|]. rewrite <- He. symmetry. apply existsb_hit_same; assumption.
+  Qed.
+End Outer.
